@@ -10,6 +10,10 @@ var registry = map[string]func() core.Engine{
 	"C06": func() core.Engine { return &C06{} },
 	"C07": func() core.Engine { return &C07{} },
 	"C08": func() core.Engine { return &C08{} },
+	"C09": func() core.Engine { return &C09{} },
+	"C10": func() core.Engine { return &C10{} },
+	"C11": func() core.Engine { return &C11{} },
+	"C12": func() core.Engine { return &C12{} },
 	"C14": func() core.Engine { return &C14{} },
 	"C15": func() core.Engine { return &C15{} },
 }
